@@ -1,0 +1,30 @@
+// Copyright 2024 Democratized Data Foundation
+//
+// Use of this software is governed by the Business Source License
+// included in the file licenses/BSL.txt.
+//
+// As of the Change Date specified in that file, in accordance with
+// the Business Source License, use of this software will be governed
+// by the Apache License, Version 2.0, included in the file
+// licenses/APL.txt.
+
+//go:build verif
+
+package net
+
+import (
+	"context"
+
+	"github.com/ipfs/boxo/blockservice"
+
+	coreblock "github.com/sourcenetwork/defradb/internal/core/block"
+)
+
+// VerifSyncDAG runs the DAG synchronisation of an incoming block (the step of processPushlog that
+// stores the block, verifies its signature and fetches its links) with the given block service.
+//
+// It exists only under the `verif` build tag and is used by the external model-based verification
+// harness to offer forged blocks to a node without a libp2p connection.
+func VerifSyncDAG(ctx context.Context, blockService blockservice.BlockService, block *coreblock.Block) error {
+	return syncDAG(ctx, blockService, block)
+}
